@@ -542,7 +542,9 @@ func (g *gen) genR3() {
 		return vhlib.Pick(g.r, "c_badsig", "c_sumovf", "c_lenmore", "c_lenless", "c_empty", "c_samerev", "c_more", "c_unknown", "c_overdraw")
 	}
 	hostileAcct := func() string { return vhlib.Pick(g.r, "acct_badsig", "acct_expired", "acct_far", "acct_zero") }
-	small := func() string { return vhlib.Pick(g.r, "0", "0", "1", "2", "5", "100", "2048", "2049", "2050", "100000", oneSC) }
+	small := func() string {
+		return vhlib.Pick(g.r, "0", "0", "1", "2", "5", "100", "2048", "2049", "2050", "100000", oneSC)
+	}
 	huge := func() string {
 		return vhlib.Pick(g.r, "1000000000000000000000000000000", "100000000000000000000000000000000", "340282366920938463463374607431768211455")
 	}
@@ -587,6 +589,95 @@ func (g *gen) genR3() {
 			amount = huge()
 		}
 		g.emit("r3 n=3 rpc=rev fcid=%d uid=%s pay=%s amount=%s", b01(!g.r.Chance(1, 5)), uid, pay, amount)
+	}
+}
+
+// genRenew: RHP3 RPCRenewContract, RHP2 RPCRenewAndClearContract and the full RHP2 RPCFormContract.  The request
+// of the reference renter with one or two parts replaced by hostile values: renter key algorithm / length,
+// transaction-set size, missing or duplicated file contract / revision, clearing revision, final revision
+// signature, the new contract (file size, window, payouts, output counts, addresses, unlock hash), the
+// revision signature (length, parent, covered fields), an unknown price table id.
+func (g *gen) genRenew() {
+	type req struct {
+		uid, keyalg, clr, fsig, fc, rsig string
+		keylen, txns, fcs, revs          int
+	}
+	r := req{uid: "ok", keyalg: "ok", clr: "ok", fsig: "ok", fc: "ok", rsig: "ok", keylen: 32, txns: 1, fcs: 1, revs: 1}
+	kind := g.r.Intn(5) // 0,1: renew3  2,3: renew2  4: form2
+	fcVariants := []string{"filesize", "filesize1", "root", "revnum1", "wend_small", "wstart_small", "wstart_huge", "hugeext", "wend_huge", "payout_huge",
+		"payout_huge_both", "payout_zero", "burn", "void_huge", "addr", "addr_missed", "void", "unlockhash", "outs0", "valid1", "valid3", "missed2", "missed4"}
+	if kind == 4 {
+		// a formation does not bound WindowEnd from above: wend_huge is a valid contract there
+		for i, v := range fcVariants {
+			if v == "wend_huge" {
+				fcVariants = append(append([]string(nil), fcVariants[:i]...), fcVariants[i+1:]...)
+				break
+			}
+		}
+	}
+	clr3 := []string{"unknown", "revnum", "filesize", "root", "window", "uc", "uckeys0", "unlockhash", "outs0", "outs1", "outs3", "missed3", "valid1", "valid3", "more", "steal", "sumovf", "differ", "addr"}
+	clr2 := []string{"under", "outs0", "outs1", "outs3", "more", "steal", "sumovf"}
+	rsigs := []string{"bad", "len0", "len1", "len63", "len65", "parent", "pki", "covered", "covered2", "covered0", "covered9"}
+	if kind == 2 || kind == 3 {
+		rsigs = rsigs[:5] // rpcRenewAndClearContract only looks at the signature bytes
+	}
+	deviate := func() {
+		switch g.r.Intn(9) {
+		case 0, 1:
+			r.keylen = int(g.pick(0, 1, 5, 16, 31, 33, 64))
+			if g.r.Chance(1, 4) {
+				r.keyalg = "bad"
+			}
+		case 2:
+			r.keyalg = "bad"
+		case 3:
+			r.txns = int(g.pick(0, 0, 2, 3, 8, 2000))
+		case 4:
+			if g.r.Chance(1, 2) || kind >= 2 {
+				r.fcs = int(g.pick(0, 2, 3))
+			} else {
+				r.revs = int(g.pick(0, 2, 3))
+			}
+		case 5:
+			switch {
+			case kind <= 1:
+				r.clr = clr3[g.r.Intn(len(clr3))]
+			case kind <= 3:
+				r.clr = clr2[g.r.Intn(len(clr2))]
+			default:
+				r.fc = fcVariants[g.r.Intn(len(fcVariants))]
+			}
+		case 6:
+			r.fc = fcVariants[g.r.Intn(len(fcVariants))]
+		case 7:
+			r.rsig = rsigs[g.r.Intn(len(rsigs))]
+		default:
+			if kind == 4 {
+				r.rsig = rsigs[g.r.Intn(len(rsigs))]
+			} else {
+				r.fsig = "bad"
+			}
+		}
+	}
+	if !g.r.Chance(1, 10) { // one in ten is the valid request
+		deviate()
+		if g.r.Chance(1, 4) {
+			deviate()
+		}
+	}
+	if kind <= 1 && g.r.Chance(1, 6) {
+		r.uid = "bad"
+	}
+	switch {
+	case kind <= 3:
+		proto := 3
+		if kind >= 2 {
+			proto = 2
+		}
+		g.emit("renew proto=%d n=%d uid=%s keyalg=%s keylen=%d txns=%d fcs=%d revs=%d clr=%s fsig=%s ren=%s rsig=%s",
+			proto, g.pick(3, 3, 1, 0), r.uid, r.keyalg, r.keylen, r.txns, r.fcs, r.revs, r.clr, r.fsig, r.fc, r.rsig)
+	default:
+		g.emit("form2 keyalg=%s keylen=%d txns=%d fcs=%d fc=%s rsig=%s", r.keyalg, r.keylen, r.txns, r.fcs, r.fc, r.rsig)
 	}
 }
 
@@ -681,16 +772,18 @@ func generate(cfg vhlib.Config) []string {
 	g.emit("regclose reads=0 writes=0")
 	for i := 0; i < cfg.N; i++ {
 		switch x := g.r.Intn(100); {
-		case x < 42:
+		case x < 38:
 			g.genInstr()
-		case x < 54:
+		case x < 49:
 			g.genMulti()
-		case x < 65:
+		case x < 59:
 			g.genValid()
-		case x < 69:
+		case x < 63:
 			g.genMut()
-		case x < 80:
+		case x < 73:
 			g.genR3()
+		case x < 85:
+			g.genRenew()
 		default:
 			g.genV2()
 		}
